@@ -3,6 +3,7 @@
   Statements are FIXED: prove them exactly as stated (helper lemmas go above them or in Cgp/Proofs/C01.lean).
 -/
 import Cgp.GatewaySpec
+import Cgp.Props.C03
 namespace Cgp.Props.C01
 open Cgp Cgp.Xdr Cgp.Gateway
 
@@ -362,6 +363,46 @@ theorem accepted_set_is_installed (st : State) (hinv : GInv H st) (dh : Bytes) (
   · subst heq
     exact Or.inl ⟨e, hws, h1, h2⟩
   · exact Or.inr hc
+
+/-! ### the same for every REACHABLE state (construction followed by any history) -/
+
+/-- In every reachable state an accepted proof declares exactly an installed, still-retained set — or a collision is exhibited. -/
+theorem accepted_set_is_installed_reachable (w : World) (hreach : Reachable H V w) (dh : Bytes) (proof : Proof σ) (b : Bool)
+    (htyped : proof.weightedSigners.Typed)
+    (hinst : ∀ e ws, w.st.setAt e = some ws → ws.Typed)
+    (h : validateProof H V w.st dh proof = .ok b) :
+    (∃ e, w.st.setAt e = some proof.weightedSigners ∧ e ≤ w.st.epoch ∧ w.st.epoch - e ≤ w.st.retention) ∨ Collision H := by
+  exact accepted_set_is_installed H V w.st (Cgp.Props.C03.GInv_reachable H V w hreach) dh proof b htyped hinst h
+
+/-- … hence its declared threshold is positive and within the overflow-free total weight of the declared signers
+    (installed sets are well-formed), which discharges the side condition of `validateProof_iff` for reachable states -/
+theorem accepted_threshold_pos_reachable (w : World) (hreach : Reachable H V w) (dh : Bytes) (proof : Proof σ) (b : Bool)
+    (htyped : proof.weightedSigners.Typed)
+    (hinst : ∀ e ws, w.st.setAt e = some ws → ws.Typed)
+    (h : validateProof H V w.st dh proof = .ok b) :
+    (0 < proof.threshold ∧ WellFormed proof.weightedSigners) ∨ Collision H := by
+  have hinv := Cgp.Props.C03.GInv_reachable H V w hreach
+  obtain ⟨e, he, _, _, _, _⟩ := (validateProof_ok_iff H V w.st dh proof b).mp h
+  obtain ⟨ws, hws, hh, hwf⟩ := hinv.ghost e _ (hinv.bwd e _ he)
+  rcases signersHash_binds H ws proof.weightedSigners (hinst e ws hws) htyped hh with heq | hc
+  · subst heq
+    exact Or.inl ⟨hwf.2.2.2.2.2.1, hwf⟩
+  · exact Or.inr hc
+
+/-- **C01 for reachable states, both directions at once**: a proof check succeeds iff `ProofValid` — or a hash collision
+    is exhibited (the only way a proof with threshold 0 could ever match an installed set) -/
+theorem validateProof_iff_reachable (w : World) (hreach : Reachable H V w) (dh : Bytes) (proof : Proof σ)
+    (htyped : proof.weightedSigners.Typed)
+    (hinst : ∀ e ws, w.st.setAt e = some ws → ws.Typed) :
+    ((∃ b, validateProof H V w.st dh proof = .ok b) → ProofValid H V w.st dh proof ∨ Collision H) ∧
+    (ProofValid H V w.st dh proof → 0 < proof.threshold → ∃ b, validateProof H V w.st dh proof = .ok b) := by
+  constructor
+  · rintro ⟨b, hb⟩
+    rcases accepted_threshold_pos_reachable H V w hreach dh proof b htyped hinst hb with ⟨hpos, _⟩ | hc
+    · exact Or.inl ((validateProof_iff H V w.st dh proof hpos).mp ⟨b, hb⟩)
+    · exact Or.inr hc
+  · intro hv hpos
+    exact (validateProof_iff H V w.st dh proof hpos).mpr hv
 
 /-- non-vacuity: a concrete one-signer proof satisfies `SigsOk` -/
 example : SigsOk (fun _ _ (_ : Unit) => true) [] 3 [⟨⟨[1], 5⟩, some ()⟩] := by
